@@ -32,11 +32,7 @@ _KP = None
 def kprime(k):
     global _KP
     if _KP is None:
-        import re
-        src = open(C.REPO + "/src/systematic_constants.rs").read()
-        body = src[src.index("SYSTEMATIC_INDICES_AND_PARAMETERS") :]
-        body = body[body.index("= [") : body.index("];")]
-        _KP = [int(m.group(1)) for m in re.finditer(r"\((\d+),\s*\d+,\s*\d+,\s*\d+,\s*\d+\)", body)]
+        _KP = [r[0] for r in C.repo_table2()[0]]
     return next(x for x in _KP if x >= k)
 
 
